@@ -196,6 +196,24 @@ def run(ctx):
                   msg=f"requirement `{line}`: the installed version is looked up under {sorted(set(asked))} instead of {dist!r}: importlib.metadata finds nothing, the package counts as "
                   f"not installed and is handed to the installer although the host has it", key=f"lookup name {line}", node=program.func(PROC), rel="requirements.py")
 
+    # ... and when the record of a freshly installed unpinned package is completed with the version that was installed
+    uu = "requirements.py::update_unpinned_versions"
+    for pkg in ("foo[extra]", "foo"):
+        asked = []
+
+        def giv(i, n, a, k, c, o, asked=asked):
+            asked.append(a[0].v if a and isinstance(a[0], Const) else repr(a))
+            return [(c, Const("3.1.4") if a and a[0] == Const("foo") else Const(None))]
+
+        polu = FlowPolicy(program, may_raise_all=False, cancel=False, globals_=dict(consts), summaries={"get_installed_version": giv})
+        polu.loop_unroll = 3
+        exu = exits(run_flow(program, uu, polu, args={"package_dict": DictV([(Const(pkg), Const(unp))])}))
+        recs = [c.env.get("$ret") for k, c, d in exu if k == "return"]
+        got = [dict((kk.v, vv.v if isinstance(vv, Const) else repr(vv)) for kk, vv in r.items) if isinstance(r, DictV) else repr(r) for r in recs]
+        ctx.check(got == [{pkg: "3.1.4"}], "R20.9", uu, f"version of the freshly installed unpinned `{pkg}`",
+                  msg=f"update_unpinned_versions for the just installed unpinned requirement `{pkg}`: looks up {asked}, record becomes {got}, specified [{{{pkg!r}: '3.1.4'}}]: the package pyscript "
+                  "installed is dropped from its record ('wasn't able to be installed'), so later pins for it are ignored as if it were foreign", key=f"unpinned record {pkg}", node=program.func(uu), rel="requirements.py")
+
     ctx.rule("R20.2", "install decision table over installed x recorded x wanted; the record equals what pyscript installed", floor=40)
     for allow in (True, False):
         for installed in (None, "1.0.0", "2.0.0"):
